@@ -122,7 +122,16 @@ func genNumberLit(r *rng.R) string {
 	if r.Chance(1, 3) {
 		sign = "-"
 	}
-	switch r.Intn(16) {
+	switch r.Intn(17) {
+	case 16: // very long literals (still inside the float64 range)
+		switch r.Intn(3) {
+		case 0:
+			return sign + digits(r.Range(40, 300), true)
+		case 1:
+			return sign + "0." + strings.Repeat("0", r.Range(20, 300)) + digits(r.Range(1, 40), true)
+		default:
+			return sign + digits(r.Range(1, 100), true) + "." + digits(r.Range(100, 400), false) + "e-" + strconv.Itoa(r.Range(0, 100))
+		}
 	case 0:
 		return sign + "0"
 	case 1:
